@@ -5,7 +5,7 @@
    c10_wf n a  :=  a has n digits, each below 2^16  (the representation invariant, itself proved
    to be preserved by every operation: the `c10_wf n (…)` conjuncts). *)
 From Coq Require Import List NArith ZArith Bool.
-From DuneV Require Import Params_gen C10_Model C10_Spec C10_Proofs.
+From DuneV Require Import Params_gen C10_Model C10_Spec C10_Proofs C10_Proofs2.
 Import ListNotations.
 Local Open Scope N_scope.
 
@@ -24,7 +24,9 @@ Proof. exact ndigits_double. Qed.
 Print Assumptions C10_mul_temp_wide_enough.
 
 (* division and remainder: a zero divisor is reported (both operators); otherwise, with fuel exceeding the
-   number of subtractions the code performs, the loops terminate with quotient and remainder *)
+   number of subtractions the code performs, the loops terminate with quotient and remainder.
+   (Fuel-relative form; the total form with a fuel bound that depends on the width only is
+   C10_divmod_total below, the exact number of iterations is C10_div_fuel_exact.) *)
 Theorem C10_divmod : forall n a b fuel, c10_wf n a -> c10_wf n b ->
   (c10_val b = 0 -> c10_div fuel a b = C10_MathError /\ c10_mod fuel a b = C10_MathError) /\
   (c10_val b <> 0 -> (N.to_nat (c10_val a / c10_val b) < fuel)%nat ->
@@ -49,7 +51,7 @@ Theorem C10_bitwise : forall n a b, c10_wf n a -> c10_wf n b ->
 Proof. exact P_bitwise. Qed.
 Print Assumptions C10_bitwise.
 
-(* shifts by any amount below w *)
+(* shifts by any amount below w  (every amount, also >= w: C10_shift_any below) *)
 Theorem C10_shift : forall n a s, c10_wf n a -> s < c10_spec_width n ->
   c10_wf n (c10_shl a s) /\ c10_val (c10_shl a s) = c10_spec_shift n true (c10_val a) s /\
   c10_wf n (c10_shr a s) /\ c10_val (c10_shr a s) = c10_spec_shift n false (c10_val a) s.
@@ -97,7 +99,8 @@ Proof. exact P_print. Qed.
 Print Assumptions C10_print.
 
 (* mixed operations with a built-in unsigned on either side (x + u, u + x, ...): the temporary built
-   from u represents u mod 2^w and the operation is again arithmetic modulo 2^w *)
+   from u represents u mod 2^w and the operation is again arithmetic modulo 2^w
+   (+ - * only; all operators incl. / and % with zero divisor: C10_free_operators below) *)
 Theorem C10_mixed : forall n2 n a u, c10_wf n a -> u < 2 ^ 64 -> (n <= n2)%nat ->
   let t := c10_assign n u in
   c10_wf n t /\ c10_val t = u mod 2 ^ c10_spec_width n /\
@@ -117,3 +120,205 @@ Example C10_nonvacuous :
   c10_mod 10 [7; 0] [0; 0] = C10_MathError /\ c10_div 10 [7; 1] [2; 0] = C10_OutOfFuel.
 Proof. exact C10_nonvacuous_proof. Qed.
 Print Assumptions C10_nonvacuous.
+
+(* ======================= deepening round ======================= *)
+
+(* TOTAL division/remainder for every width: any fuel of at least 2^w (a bound that depends on the width only,
+   never on the operands) makes both loops terminate with the Euclidean quotient and remainder of N;
+   OutOfFuel is excluded by the statement. *)
+Theorem C10_divmod_total : forall n a b fuel, c10_wf n a -> c10_wf n b -> c10_val b <> 0 ->
+  (N.to_nat (2 ^ c10_spec_width n) <= fuel)%nat ->
+  exists q r, c10_div fuel a b = C10_Ok q /\ c10_mod fuel a b = C10_Ok r /\ c10_wf n q /\ c10_wf n r /\
+    c10_val q = c10_val a / c10_val b /\ c10_val r = c10_val a mod c10_val b /\
+    c10_val a = c10_val b * c10_val q + c10_val r /\ c10_val r < c10_val b.
+Proof. exact P_divmod_total. Qed.
+Print Assumptions C10_divmod_total.
+
+(* the loops perform exactly (val a / val b) subtractions: fuel runs out if and only if it does not exceed the quotient
+   (so the fuel hypothesis of C10_divmod is necessary as well as sufficient; this is also the cost of the operators) *)
+Theorem C10_div_fuel_exact : forall n a b fuel, c10_wf n a -> c10_wf n b -> c10_val b <> 0 ->
+  (c10_div fuel a b = C10_OutOfFuel <-> (fuel <= N.to_nat (c10_val a / c10_val b))%nat) /\
+  (c10_mod fuel a b = C10_OutOfFuel <-> (fuel <= N.to_nat (c10_val a / c10_val b))%nat).
+Proof. exact P_div_fuel_exact. Qed.
+Print Assumptions C10_div_fuel_exact.
+
+(* shifts by ANY non-negative amount.  operator<< is (a * 2^s) mod 2^w for every s (zero from s = w on).
+   operator>> is a / 2^s for every s < w + 16 (zero from s = w on); for s >= w + 16 its first loop
+   `for (unsigned i=0; i<n-j; i++)` compares against a negative int converted to unsigned and indexes past
+   the arrays: the model reports OutOfBounds (undefined behaviour in C++; outside the property, which
+   speaks of amounts below w).  Negative amounts are outside the model's domain (s : N). *)
+Theorem C10_shift_any : forall n a s, c10_wf n a ->
+  c10_wf n (c10_shl a s) /\ c10_val (c10_shl a s) = c10_spec_shift n true (c10_val a) s /\
+  (c10_spec_width n <= s -> c10_val (c10_shl a s) = 0) /\
+  (s < c10_spec_width n + c10_bits ->
+     c10_shr_checked a s = C10_Ok (c10_shr a s) /\ c10_wf n (c10_shr a s) /\
+     c10_val (c10_shr a s) = c10_spec_shift n false (c10_val a) s /\
+     (c10_spec_width n <= s -> c10_val (c10_shr a s) = 0)) /\
+  (c10_spec_width n + c10_bits <= s -> c10_shr_checked a s = C10_OutOfBounds).
+Proof. exact P_shift_any. Qed.
+Print Assumptions C10_shift_any.
+
+(* todouble, exactly: the value with every base-2^16 digit below position (significant digits - 3) dropped,
+   i.e. floor(val / 2^e) * 2^e with e = 16 * max(0, sigdigits - 3), sigdigits = floor(log2 val / 16) + 1:
+   truncation toward zero (the round_style announced by numeric_limits) to between 33 and 48 significant bits.
+   C10_todouble (relative error < 2^-32) is a consequence. *)
+Theorem C10_todouble_exact : forall n a, c10_wf n a -> c10_todouble a = c10_spec_todouble (c10_val a).
+Proof. exact P_todouble_exact. Qed.
+Print Assumptions C10_todouble_exact.
+
+(* the floating-point side of todouble: every value the double accumulator holds is an integer below 2^53
+   (at most three iterations), hence exact; the scaled result is below 2^1024 (finite) for widths up to 1024 bits.
+   For k > 1024 values from 2^1024 on are not representable in a double at all: there ldexp returns +inf. *)
+Theorem C10_todouble_exact_double : forall n a, c10_wf n a ->
+  Forall (fun x => x < 2 ^ c10_param_double_digits) (c10_todouble_trace a) /\
+  (length (c10_todouble_trace a) <= N.to_nat (c10_param_double_digits / c10_bits))%nat /\
+  ((n <= 64)%nat -> fst (c10_todouble a) * 2 ^ snd (c10_todouble a) < 2 ^ 1024).
+Proof. exact P_todouble_exact_double. Qed.
+Print Assumptions C10_todouble_exact_double.
+
+(* constructors: default = 0; from a signed built-in: negative <-> Dune::Exception, otherwise y mod 2^w *)
+Theorem C10_ctor : forall n y,
+  c10_wf n (c10_ctor_default n) /\ c10_val (c10_ctor_default n) = 0 /\
+  ((y < 0)%Z -> c10_ctor_signed n y = C10_Exception) /\
+  ((0 <= y < 2 ^ 63)%Z -> exists t, c10_ctor_signed n y = C10_Ok t /\ c10_wf n t /\
+       c10_val t = Z.to_N y mod 2 ^ c10_spec_width n /\ t = c10_assign n (Z.to_N y)).
+Proof. exact P_ctor. Qed.
+Print Assumptions C10_ctor.
+
+(* the whole operator table + - * / % & | ^ against the spec table, OutOfFuel excluded by the width-only bound *)
+Theorem C10_binop_table : forall n2 n fuel o a b, c10_wf n a -> c10_wf n b -> (n <= n2)%nat ->
+  (N.to_nat (2 ^ c10_spec_width n) <= fuel)%nat ->
+  res_is n (c10_apply n2 fuel o a b) (c10_spec_binop n o (c10_val a) (c10_val b)).
+Proof. exact P_apply. Qed.
+Print Assumptions C10_binop_table.
+
+(* free operator templates with the built-in (unsigned) operand on the right and on the LEFT, all of + - * / %
+   (zero divisor reported on either side) *)
+Theorem C10_free_operators : forall n2 n fuel o a u, c10_wf n a -> u < 2 ^ 64 -> (n <= n2)%nat ->
+  (N.to_nat (2 ^ c10_spec_width n) <= fuel)%nat ->
+  res_is n (c10_free_right n2 fuel o a u) (c10_spec_binop n o (c10_val a) (u mod 2 ^ c10_spec_width n)) /\
+  res_is n (c10_free_left n2 fuel o u a) (c10_spec_binop n o (u mod 2 ^ c10_spec_width n) (c10_val a)).
+Proof. exact P_free. Qed.
+Print Assumptions C10_free_operators.
+
+(* ... with a SIGNED built-in operand: negative operands are rejected like in direct construction (model of
+   the code after proposed fix C10-5), non-negative ones reduce to C10_free_operators; for non-negative
+   operands the code as written (`_conv`: implicit conversion to uintmax_t) agrees *)
+Theorem C10_free_operators_signed : forall n2 n fuel o a y, c10_wf n a ->
+  ((y < 0)%Z -> c10_free_right_signed n2 fuel o a y = C10_Exception /\ c10_free_left_signed n2 fuel o y a = C10_Exception) /\
+  ((0 <= y < 2 ^ 63)%Z ->
+     c10_free_right_signed n2 fuel o a y = c10_free_right n2 fuel o a (Z.to_N y) /\
+     c10_free_left_signed n2 fuel o y a = c10_free_left n2 fuel o (Z.to_N y) a /\
+     c10_free_right_conv n2 fuel o a y = c10_free_right n2 fuel o a (Z.to_N y) /\
+     c10_free_left_conv n2 fuel o y a = c10_free_left n2 fuel o (Z.to_N y) a /\ Z.to_N y < 2 ^ 64).
+Proof. exact P_free_signed. Qed.
+Print Assumptions C10_free_operators_signed.
+
+(* REFUTED for the code as written (finding F-C10-5): with a negative built-in operand the free operators neither
+   reject it nor compute modulo 2^w once w > 64 (witness: bigunsignedint<80>(5) + (-1) = 2^64 + 4) ... *)
+Theorem C10_free_conv_negative_refuted :
+  exists n2 n fuel a y r, c10_wf n a /\ (y < 0)%Z /\ c10_free_right_conv n2 fuel OpAdd a y = C10_Ok r /\
+    c10_free_left_conv n2 fuel OpAdd y a = C10_Ok r /\
+    Z.of_N (c10_val r) <> ((Z.of_N (c10_val a) + y) mod 2 ^ Z.of_N (c10_spec_width n))%Z.
+Proof. exact P_free_conv_negative_refuted. Qed.
+Print Assumptions C10_free_conv_negative_refuted.
+
+(* ... while for w <= 64 the silent conversion happens to be arithmetic modulo 2^w.
+   PARTIAL: stated for + only (the same argument applies to subtraction and multiplication); the full statement would range over all five operators. *)
+Theorem C10_free_conv_narrow_partial : forall n2 n fuel a y, c10_wf n a -> (n <= 4)%nat -> (n <= n2)%nat -> (- 2 ^ 63 <= y < 2 ^ 63)%Z ->
+  exists r, c10_free_right_conv n2 fuel OpAdd a y = C10_Ok r /\ c10_wf n r /\
+    Z.of_N (c10_val r) = ((Z.of_N (c10_val a) + y) mod 2 ^ Z.of_N (c10_spec_width n))%Z.
+Proof. exact P_free_conv_narrow. Qed.
+Print Assumptions C10_free_conv_narrow_partial.
+
+(* REFUTED for the code as written (finding F-C10-4): `a /= a` and `a %= a` (divisor aliasing the dividend) exhaust
+   every fuel for every non-zero a -- the property demands "never looping" *)
+Theorem C10_div_alias_diverges_without_copy : forall n a fuel, c10_wf n a -> c10_val a <> 0 ->
+  c10_div_alias fuel a = C10_OutOfFuel /\ c10_mod_alias fuel a = C10_OutOfFuel.
+Proof. exact P_div_alias_diverges. Qed.
+Print Assumptions C10_div_alias_diverges_without_copy.
+
+(* both operands the same value (binary forms x OP x; compound forms x OP= x after fix C10-4, which copies the divisor) *)
+Theorem C10_self_operand : forall n2 n fuel a, c10_wf n a -> (n <= n2)%nat -> (N.to_nat (2 ^ c10_spec_width n) <= fuel)%nat ->
+  c10_val (c10_add a a) = (2 * c10_val a) mod 2 ^ c10_spec_width n /\ c10_sub a a = c10_zero n /\
+  c10_val (c10_mul n2 a a) = (c10_val a * c10_val a) mod 2 ^ c10_spec_width n /\
+  c10_and a a = a /\ c10_or a a = a /\ c10_xor a a = c10_zero n /\
+  c10_eq a a = true /\ c10_ne a a = false /\ c10_lt a a = false /\ c10_le a a = true /\ c10_gt a a = false /\ c10_ge a a = true /\
+  (c10_val a <> 0 -> exists q, c10_div fuel a a = C10_Ok q /\ c10_val q = 1 /\ c10_wf n q /\ c10_mod fuel a a = C10_Ok (c10_zero n)) /\
+  (c10_val a = 0 -> c10_div fuel a a = C10_MathError /\ c10_mod fuel a a = C10_MathError).
+Proof. exact P_self_operand. Qed.
+Print Assumptions C10_self_operand.
+
+(* the commutative-ring laws as equalities of DIGIT ARRAYS (what operator== compares and hash_value hashes),
+   two's complement, and ++ as + 1 *)
+Theorem C10_ring_laws : forall n2 n a b c, c10_wf n a -> c10_wf n b -> c10_wf n c -> (n <= n2)%nat ->
+  c10_add a b = c10_add b a /\ c10_add (c10_add a b) c = c10_add a (c10_add b c) /\
+  c10_mul n2 a b = c10_mul n2 b a /\ c10_mul n2 (c10_mul n2 a b) c = c10_mul n2 a (c10_mul n2 b c) /\
+  c10_mul n2 a (c10_add b c) = c10_add (c10_mul n2 a b) (c10_mul n2 a c) /\
+  c10_add a (c10_zero n) = a /\ c10_mul n2 a (c10_assign n 1) = a /\
+  c10_sub (c10_add a b) b = a /\ c10_add (c10_sub a b) b = a /\
+  c10_add a (c10_not a) = c10_max n /\ c10_incr (c10_not a) = c10_sub (c10_zero n) a /\
+  c10_incr a = c10_add a (c10_assign n 1).
+Proof. exact P_ring_laws. Qed.
+Print Assumptions C10_ring_laws.
+
+(* every member of std::numeric_limits<bigunsignedint<k>> (constants re-read from the source) is consistent with
+   the represented values: unsigned exact bounded modulo integer, radix^digits - 1 = max, min = 0 bound all
+   values, ++max = min and min - 1 = max (is_modulo), floating-point-only members false / 0 *)
+Theorem C10_limits : forall n, let L := c10_numeric_limits n in
+  c10_l_is_specialized L = true /\ c10_l_is_signed L = false /\ c10_l_is_integer L = true /\ c10_l_is_exact L = true /\
+  c10_l_radix L = 2 /\ c10_l_digits L = c10_spec_width n /\ c10_l_is_bounded L = true /\ c10_l_is_modulo L = true /\
+  c10_l_min_exponent L = 0 /\ c10_l_min_exponent10 L = 0 /\ c10_l_max_exponent L = 0 /\ c10_l_max_exponent10 L = 0 /\
+  c10_l_has_infinity L = false /\ c10_l_has_quiet_NaN L = false /\ c10_l_has_signaling_NaN L = false /\
+  c10_l_has_denorm_plus1 L = 1 /\ c10_l_has_denorm_loss L = false /\ c10_l_is_iec559 L = false /\
+  c10_l_traps L = false /\ c10_l_tinyness_before L = false /\ c10_l_round_style_plus1 L = 1 /\
+  c10_wf n (c10_l_max L) /\ c10_val (c10_l_max L) = c10_l_radix L ^ c10_l_digits L - 1 /\
+  c10_wf n (c10_l_min L) /\ c10_val (c10_l_min L) = 0 /\
+  (forall a, c10_wf n a -> c10_val (c10_l_min L) <= c10_val a <= c10_val (c10_l_max L)) /\
+  c10_incr (c10_l_max L) = c10_l_min L /\ c10_sub (c10_l_min L) (c10_assign n 1) = c10_l_max L /\
+  Forall (fun z => c10_wf n z /\ c10_val z = 0)
+    [c10_l_epsilon L; c10_l_round_error L; c10_l_infinity L; c10_l_quiet_NaN L; c10_l_signaling_NaN L; c10_l_denorm_min L].
+Proof. exact P_limits. Qed.
+Print Assumptions C10_limits.
+
+(* hash_value (hash_range over the digit array with hash_combiner<8>, modelled bit-exactly): equal values and
+   operator==-equal objects hash equal, the hash fits std::size_t, and it is the left fold of hash_combine *)
+Theorem C10_hash : forall n a b, c10_wf n a -> c10_wf n b ->
+  (c10_val a = c10_val b -> c10_hash a = c10_hash b) /\ (c10_eq a b = true -> c10_hash a = c10_hash b) /\
+  c10_hash a < 2 ^ c10_param_size_t_bits /\
+  (forall d, c10_hash (a ++ [d]) = c10_hash_combine (c10_hash a) d).
+Proof. exact P_hash. Qed.
+Print Assumptions C10_hash.
+
+(* operator<< (std::ostream&, x): appends exactly the 4n hex characters of print (which read back as the value)
+   and leaves the stream in decimal.  (No operator>> (std::istream&, ...) exists in the source.) *)
+Theorem C10_stream : forall n out base a, c10_wf n a ->
+  let st := c10_stream_insert (out, base) a in
+  fst st = out ++ c10_print a /\ snd st = C10_dec /\
+  c10_hexval (skipn (length out) (fst st)) = c10_val a /\ length (fst st) = (length out + 4 * n)%nat.
+Proof. exact P_stream. Qed.
+Print Assumptions C10_stream.
+
+(* the storage width w = 16 n of bigunsignedint<k>: k rounded up to the next multiple of 16 *)
+Theorem C10_width_of_k : forall k, let n := c10_ndigits k in
+  k <= c10_spec_width n /\ c10_spec_width n < k + c10_bits /\ c10_spec_width n mod c10_bits = 0 /\ (0 < k -> (1 <= n)%nat).
+Proof. exact P_ndigits. Qed.
+Print Assumptions C10_width_of_k.
+
+(* non-vacuity of the theorems above: concrete witnesses (fuel bound, exhausted fuel, shifts >= w, dropped digits,
+   rejected negative, free operators on the left, aliasing, the hash of a one-digit 5 as the C++ code computes it) *)
+Example C10_nonvacuous2 :
+  c10_div (N.to_nat (2 ^ c10_spec_width 1)) [65535] [3] = C10_Ok [21845] /\
+  c10_div (N.to_nat 21845) [65535] [3] = C10_OutOfFuel /\ c10_div (N.to_nat 21846) [65535] [3] = C10_Ok [21845] /\
+  c10_shl [65535; 65535] 32 = [0; 0] /\ c10_shl [65535; 65535] 1000 = [0; 0] /\
+  c10_shr_checked [65535; 65535] 47 = C10_Ok [0; 0] /\ c10_shr_checked [65535; 65535] 48 = C10_OutOfBounds /\
+  c10_todouble [1; 2; 3; 4; 5] = (c10_val [3; 4; 5], 32) /\ c10_spec_sigdigits (c10_val [1; 2; 3; 4; 5]) = 5 /\
+  c10_todouble_trace [1; 2; 3; 4; 5] = [5; 5 * 65536 + 4; (5 * 65536 + 4) * 65536 + 3] /\
+  c10_ctor_signed 2 (-1) = C10_Exception /\ c10_ctor_signed 2 65537 = C10_Ok [1; 1] /\
+  c10_free_left 4 100 OpSub 1 [2; 0] = C10_Ok [65535; 65535] /\ c10_free_right 4 100 OpDiv [7; 0] 0 = C10_MathError /\
+  c10_free_right_signed 4 100 OpAdd [7; 0] (-1) = C10_Exception /\
+  c10_free_right_conv 10 0 OpAdd [5; 0; 0; 0; 0] (-1) = C10_Ok [4; 0; 0; 0; 1] /\
+  c10_div_alias 1000 [7; 0] = C10_OutOfFuel /\ c10_div (N.to_nat 70000) [7; 0] [7; 0] = C10_Ok [1; 0] /\
+  c10_hash [5] = 6099401531929477805 /\ c10_ndigits 17 = 2%nat /\ c10_ndigits 16 = 1%nat.
+Proof. exact C10_nonvacuous2_proof. Qed.
+Print Assumptions C10_nonvacuous2.
